@@ -175,11 +175,16 @@ func (w *ibWorld) closureAfterAdd() string {
 	if m := check("after NewContext"); m != "" {
 		return m
 	}
-	for _, p := range w.paths[k:] {
-		if _, err := c.AddDirectory(p); err != nil {
+	for i, p := range w.paths[k:] {
+		// both entry points, the current one and the deprecated one
+		if i%2 == 0 {
+			if _, err := c.AddDirectory(p); err != nil {
+				return ""
+			}
+		} else if err := c.AddDir(p); err != nil {
 			return ""
 		}
-		if m := check("after AddDirectory(" + p + ")"); m != "" {
+		if m := check("after AddDirectory/AddDir(" + p + ")"); m != "" {
 			return m
 		}
 	}
